@@ -47,7 +47,12 @@ def gen_tree_case(rng):
         # fault: the file has one text)
         specs.insert(i + 2, sp)
       break
-  fault = [rng.randint(0, count_positions(specs) - 1), 'bad_include', False] if missing else None
+  fkind = 'bad_include'
+  if missing and rng.random() < 0.4:
+    # a binding of an unknown configurable somewhere in the tree, while skip_unknown lists *other* names only: an
+    # error at every include depth, exactly as in the flattened text
+    fkind = 'unknown_cfg'
+  fault = [rng.randint(0, count_positions(specs) - 1), fkind, False] if missing else None
   files, flat = {}, []
   text, stmts, _ = render(rng, specs, regs, fault, files, flat)
   entry = rng.choice(['config', 'file', 'files_and_bindings'])
@@ -57,6 +62,8 @@ def gen_tree_case(rng):
   pskip = {'k': 'no'}
   if rng.random() < (0.6 if missing else 0.15):
     pskip = rng.choice([{'k': 'all'}, {'k': 'names', 'v': ['zz.q'], '_type': rng.choice(['list', 'tuple', 'set'])}])
+  if fkind == 'unknown_cfg':
+    pskip = rng.choice([{'k': 'no'}, {'k': 'names', 'v': ['other.name', 'q'], '_type': rng.choice(['list', 'tuple', 'set'])}])
   if entry == 'config':
     ops.append({'op': 'parse', 'file': None, 'skip': pskip, 'stmts': stmts, '_text': text, '_files': files, '_regmods': regmods,
                 '_as_list': rng.random() < 0.2 and ':' not in text})
@@ -92,7 +99,7 @@ def gen_tree_case(rng):
                   'finalize': fin, '_binding_lines': lines, '_files': files, '_regmods': regmods})
   ops += [{'op': 'config'}, {'op': 'imports'}, {'op': 'locked'}]
   return {'dom': 'gin', 'ops': ops, '_flat_text': flat_text(flat), '_kind': 'tree', '_nregs': len(regs), '_regmods': regmods,
-          '_missing': bool(fault and fault[2]), '_entry': entry}
+          '_missing': bool(fault and fault[2]), '_entry': entry, '_fkind': fkind}
 
 
 def gen_resolve_case(rng):
@@ -115,6 +122,14 @@ def gen_resolve_case(rng):
   if rng.random() < 0.15:
     present = []
   name = 'res_%04d.gin' % rng.randint(0, 9999)
+  if not pkg and not is_abs:
+    r2 = rng.random()
+    if r2 < 0.2:
+      name = '.' + name              # a dot-file is a file name like any other
+    elif r2 < 0.3:
+      name = './' + name
+    elif r2 < 0.38:
+      name = '..hidden/' + name      # a directory whose name starts with dots
   if pkg:
     name = 'c14rp%d/%s' % (rng.randint(0, 99999), name)
   rereg = rng.random() < 0.3 and len(prefixes) > 1
@@ -169,8 +184,9 @@ def oracle(case, impl):
   if 'err' in fr[0]:
     return f'harness: flattened text fails: {fr[0]}'
   if case['_missing']:
-    if res.get('err') != 'OSError':
-      return f'missing include surfaced as {res}'
+    want_err = 'ValueError' if case.get('_fkind') == 'unknown_cfg' else 'OSError'
+    if res.get('err') != want_err:
+      return f'{case.get("_fkind", "bad_include")} somewhere in the include tree (skip_unknown={case["ops"][n].get("skip")}) surfaced as {res}'
   elif 'err' in res and not (case['_entry'] == 'files_and_bindings' and res.get('err') in ('ValueError',)):
     return f'valid include tree failed: {res}'
   if cfg != fr[1]:
